@@ -44,7 +44,13 @@ static Chunk *fwd_chunk() { if (g_fwd_fuel == 0) { return &g_null_chunk; } g_fwd
 #define fwd_chunk any_chunk
 #endif
 Chunk *Chunk::GetNext(const E_Scope) const { return fwd_chunk(); }
+#ifdef PLAIN_VC
+// GetPrev() of the first chunk of the pair is a function of the list: the same chunk every time it is asked for (recorded for the C02 clause)
+extern "C" { Chunk *g_first_prev; }
+Chunk *Chunk::GetPrev(const E_Scope) const { if (this == &g_pool[0]) { if (g_first_prev == 0) { g_first_prev = any_chunk(); } return g_first_prev; } return any_chunk(); }
+#else
 Chunk *Chunk::GetPrev(const E_Scope) const { return any_chunk(); }
+#endif
 Chunk *Chunk::GetNextNc(const E_Scope) const { return fwd_chunk(); }
 Chunk *Chunk::GetNextNcNnl(const E_Scope) const { return fwd_chunk(); }
 Chunk *Chunk::GetPrevNcNnl(const E_Scope) const { return any_chunk(); }
@@ -83,6 +89,22 @@ extern const unsigned long N_IGNORE = sizeof(IGNORE_space_table) / sizeof(IGNORE
 extern const unsigned long N_NOSPACE = sizeof(no_space_table) / sizeof(no_space_table[0]);
 extern const unsigned long N_ADDSPACE = sizeof(add_space_table) / sizeof(add_space_table[0]);
 extern Chunk *const P0 = &g_pool[0]; extern Chunk *const P1 = &g_pool[1]; extern Chunk *const P2 = &g_pool[2]; extern Chunk *const P3 = &g_pool[3]; extern Chunk *const PN = &g_null_chunk;
+#ifdef PLAIN_VC
+// C02 clause: token types whose text is a word (begins and ends with an identifier character) whatever the input: keywords and identifiers
+bool c02_word_before_vbrace(unsigned t) { return(t == CT_ELSE || t == CT_DO); }
+bool c02_word_after_vbrace(unsigned t)
+{
+   switch ((E_Token)t)
+   {
+   case CT_WORD: case CT_TYPE: case CT_NUMBER: case CT_RETURN: case CT_GOTO: case CT_BREAK: case CT_CONTINUE: case CT_IF: case CT_FOR: case CT_WHILE: case CT_SWITCH:
+   case CT_DO: case CT_FUNC_CALL: case CT_SIZEOF: case CT_THROW: case CT_DELETE: case CT_NEW: case CT_QUALIFIER: case CT_STRUCT: case CT_ENUM: case CT_UNION:
+      return(true);
+   default:
+      return(false);
+   }
+}
+extern const unsigned CT_VBRACE_OPEN_V = CT_VBRACE_OPEN;
+#endif
 void h_do_space()
 {
    int msp;
